@@ -1,6 +1,6 @@
 """C08 - locked LP returns only to its owner, only after unlocking, and in full."""
 import re
-from rules.common import (PredTrue, PredFalse, TryOk, CallTrue, EQ, VariantEdge, NONPAYABLE, no_effects, where, flat_atoms,
+from rules.common import (opmap, PredTrue, PredFalse, TryOk, CallTrue, EQ, VariantEdge, NONPAYABLE, no_effects, where, flat_atoms,
                           all_origins, exact_origins, ops_of, show, origin_match, eq_test, pred_test, data_test, field_val,
                           effects_signature)
 from rules.C15 import POS_OWNER, SENDER_IS_PM, SENDER_IS_RECV, RECV_NONE
@@ -132,7 +132,7 @@ def run(W, chk):
                [PredFalse("position.is_none()", pred_test("is_some", r"^Store\(POSITIONS\)$"))], "", effects=pos_writes)
     for e in A.writes():
         if e.extra.get("item") == "POSITION_ID_COUNTER":
-            o = {o: ops for (o, ops) in flat_atoms(e.extra.get("value", EMPTY))}
+            o = opmap(e.extra.get("value", EMPTY))
             chk.expect(set(o) <= {"Store(POSITION_ID_COUNTER)", "Const(1_u64)", "Const(default)"} and o.get("Store(POSITION_ID_COUNTER)") == frozenset(["add"]),
                        "PROV-counter", "create", "counter <- counter + 1", "POSITION_ID_COUNTER <- %s" % o, where(e))
     ex = W.F.const_literal("farm_manager::position::helpers::EXPLICIT_POSITION_ID_PREFIX")
@@ -144,7 +144,7 @@ def run(W, chk):
     A = W.run(fm, "execute", ("ManagePosition", ".action", "Expand"))
     for e in [e for e in pos_writes(A) if e.extra.get("sop") == "save"]:
         v = e.extra.get("value", EMPTY)
-        am = {o: ops for (o, ops) in flat_atoms(vfield(vfield(v, "lp_asset"), "amount"))}
+        am = opmap(vfield(vfield(v, "lp_asset"), "amount"))
         chk.expect(am == {"Store(POSITIONS).lp_asset.amount": frozenset(["add"]), "info.funds[*].amount": frozenset(["add"])},
                    "PROV-position-fields", "expand.amount", "amount <- stored amount + one_coin amount (checked add)",
                    "expanded amount <- %s" % {k: sorted(x) for k, x in am.items()}, where(e))
@@ -160,7 +160,7 @@ def run(W, chk):
     for e in [e for e in pos_writes(A) if e.extra.get("sop") == "save"]:
         v = e.extra.get("value", EMPTY)
         partial = "Store(POSITIONS)" not in {o for (o, ops) in v.atoms}
-        ea = {o: ops for (o, ops) in flat_atoms(vfield(v, "expiring_at"))}
+        ea = opmap(vfield(v, "expiring_at"))
         want_exp = {"env.block.time": frozenset(["add"]), "Store(POSITIONS).unlocking_duration": frozenset(["add"])}
         if partial:
             ok = (exact_origins(vfield(v, "lp_asset")) == {P + ".Close.lp_asset"} and not ops_of(vfield(v, "lp_asset"))
